@@ -223,6 +223,7 @@ fn dense_c02(thorough: bool, _seed: u64) -> Vec<Case> {
                             policy: [crate::sched::Policy::Weighted, crate::sched::Policy::Uniform, crate::sched::Policy::Priority][n as usize % 3],
                             tape: (0..120).map(|i| (mix(n as u64, i) & 0xff) as u8).collect(),
                             weights: (0..18).map(|i| if i >= 2 { 6 } else { 1 }).collect(),
+                            yield_every: 1,
                         }),
                         faults: vec![],
                     };
@@ -258,6 +259,7 @@ pub fn c02() -> PropDef {
                 &[&[1, 0, 2, 1], &[0, 2, 1], &[3, 3, 1, 2]],
             )
         },
+        long: Some(({ let mut c = GenCfg::long_sched(); c.terms = vec![TermClass::ShortCircuit, TermClass::WithIndex]; c }, 300, 3000)),
     }
 }
 
@@ -593,6 +595,7 @@ pub fn c10() -> PropDef {
                 &[&[0, 0, 1, 0, 2, 0], &[3, 1, 0, 0]],
             )
         },
+        long: None,
     }
 }
 
